@@ -20,8 +20,12 @@ var recLife = ev.New("C12", "lifecycle-plans",
 		"{establish, burst, continuous uplink stream, reply flood from the destination, short pause, pause >= natTimeout (eviction check), resend, sessions whose "+
 		"initialisation blocks in the resolver / fails / is rejected by the router}; Stop (context cancel) comes after the last phase while the asynchronous phases still run, "+
 		"so it lands in every phase. Oracle: sockets and relay goroutines counted from /proc/self/fd and the runtime stack dump; Run must return within 2.5 s when natTimeout >= 5 s; "+
-		"afterwards no relay goroutine and no descriptor remain. Non-trivial: Stop under uplink and reply traffic, or an observed eviction; distinct key = configuration and phase classes").
-	Require("eviction-observed", "stop-under-bidirectional-traffic", "stop-bound-judged", "batch:no", "batch:sendmmsg")
+		"afterwards no relay goroutine and no descriptor remain. Round 6: the listener is bound to 127.0.0.1, [::1], [::] or \":port\" (dual-stack: IPv4 clients are IPv4-mapped at the relay, every third client is native IPv6) "+
+		"and written either as udpListeners or with the deprecated single-listener fields (natTimeoutSec); phases 'reinit' (new clients whose first datagrams cannot start a session - router reject, "+
+		"upstream name not resolving, upstream refusing the connection or the association - and whose later datagram from the same address:port must) and 'refusedMix' (bursts with a port-0 datagram inside; "+
+		"every other datagram must reach the destination). Non-trivial: Stop under uplink and reply traffic, or an observed eviction; distinct key = configuration and phase classes").
+	Require("eviction-observed", "stop-under-bidirectional-traffic", "stop-bound-judged", "batch:no", "batch:sendmmsg",
+		"listen:v4", "listen:v6", "listen:dual", "listen:dualany", "form:listeners", "form:legacy", "legacy-evicted-at-configured-timeout", "restart-answered")
 
 func workDir(t interface{ TempDir() string }) string {
 	if d := os.Getenv("VERIF_WORK"); d != "" {
